@@ -7,7 +7,7 @@
 (* chosen entries codeword by codeword; the decoder must consume exactly   *)
 (* the bits of the codewords (observable through the packet bit counter).  *)
 (***************************************************************************)
-EXTENDS Codebook, Setup, TLC, Json
+EXTENDS Codebook, AudioRead, TLC, Json
 CONSTANTS MaxEntries, MaxLenBits, Gen
 VARIABLES lens, done
 vars == <<lens, done>>
@@ -22,6 +22,11 @@ Complete == Kraft(lens) = 65536
 \* the assignment fails exactly when the lengths over-subscribe the tree
 OverIffKraft == Overpopulated(lens) <=> Kraft(lens) > 65536
 CarryChainAgrees == KraftOne(lens) <=> Kraft(lens) = 65536
+\* the marker algorithm (AudioRead.FastWords, the shape of lib/sharedbook.c _make_words) assigns the same words as the declarative rule, flags the same lists
+\* as overpopulated, and its lookup table decodes every word to its entry
+FastAgrees == /\ FastWords(lens).over = Overpopulated(lens)
+              /\ (~Overpopulated(lens) => FastWords(lens).words = CW)
+              /\ (~Overpopulated(lens) => LET cm == CwMap(lens) IN cm.ok /\ \A a \in Used : cm.map[<<lens[a], CW[a].w>>] = a)
 PrefixFree == ~Overpopulated(lens) => \A a, b \in Used : a # b => ~Clash(CW[a].w, CW[a].l, CW[b].w, CW[b].l)
 \* every codeword decodes to its own entry and consumes exactly its length, whatever follows
 RoundTrip == ~Overpopulated(lens) => \A a \in Used : \A tail \in {<<>>, <<0>>, <<1>>, <<1, 0, 1>>} :
